@@ -26,10 +26,11 @@ func note(s string) {
 
 // CrashRound is one process lifetime.
 type CrashRound struct {
-	To    int    `json:"to"`    // executes steps [prev.To, To)
-	Clean bool   `json:"clean"` // close cleanly instead of crashing
-	SelA  uint32 `json:"sel_a"` // selects the site from the round's profile
-	SelB  uint32 `json:"sel_b"` // selects the hit number
+	To    int    `json:"to"`             // executes steps [prev.To, To)
+	Clean bool   `json:"clean"`          // close cleanly instead of crashing
+	SelA  uint32 `json:"sel_a"`          // selects the site from the round's profile
+	SelB  uint32 `json:"sel_b"`          // selects the hit number
+	Late  bool   `json:"late,omitempty"` // choose among the last quarter of the site's hits (the end of the segment)
 	// resolved by the run (recorded for replay and evidence)
 	Site string `json:"site,omitempty"`
 	N    int    `json:"n,omitempty"`
@@ -166,6 +167,14 @@ func RunCrashCase(c *CrashCase, replay bool, filter SiteFilter) (*Failure, []str
 				} else {
 					rd.Site = sites[int(rd.SelA)%len(sites)]
 					rd.N = 1 + int(rd.SelB)%prof[rd.Site]
+					if rd.Late {
+						h := prof[rd.Site]
+						span := h / 4
+						if span < 1 {
+							span = 1
+						}
+						rd.N = h - int(rd.SelB)%span
+					}
 				}
 			}
 		}
